@@ -5,6 +5,7 @@ import (
 	"fmt"
 	"io"
 	"reflect"
+	"sort"
 	"strconv"
 	"strings"
 	"unsafe"
@@ -87,6 +88,16 @@ type c04XPath struct {
 	Path string
 	Pred string // "" or "[...]"
 	Wrap string // "": Path+Pred; "paren": (Path+Pred); "union": Path+Pred | /nosuch; "union2": /nosuch[zz] | Path+Pred
+	// Path2/Pred2 (Wrap "union-real"): a second branch that selects nodes of its own: Path+Pred | Path2+Pred2
+	Path2, Pred2 string
+}
+
+// candPath is the expression without its filters: what makes a node a candidate.
+func (x c04XPath) candPath() string {
+	if x.Wrap == "union-real" {
+		return x.Path + " | " + x.Path2
+	}
+	return x.Path
 }
 
 func (x c04XPath) String() string {
@@ -97,6 +108,8 @@ func (x c04XPath) String() string {
 		return x.Path + x.Pred + " | /nosuch"
 	case "union2":
 		return "/nosuch[zz] | " + x.Path + x.Pred
+	case "union-real":
+		return x.Path + x.Pred + " | " + x.Path2 + x.Pred2
 	}
 	return x.Path + x.Pred
 }
@@ -127,14 +140,37 @@ func c04Expected(kind, doc string, xp c04XPath) ([]string, string) {
 		c04Whole.kind, c04Whole.doc, c04Whole.root, c04Whole.cands = kind, doc, root, map[string][]*idr.Node{}
 	}
 	root := c04Whole.root
-	cands, ok := c04Whole.cands[xp.Path]
+	cands, ok := c04Whole.cands[xp.candPath()]
 	if !ok {
 		var err error
-		cands, err = idr.MatchAll(root, xp.Path)
+		cands, err = idr.MatchAll(root, xp.candPath())
 		if err != nil {
 			return nil, "harness: " + err.Error()
 		}
-		c04Whole.cands[xp.Path] = cands
+		if xp.Wrap == "union-real" {
+			// the engine gives a union branch by branch (and a node selected by both twice): the
+			// definition is about the set, in document order
+			pos := map[*idr.Node]int{}
+			var walk func(n *idr.Node)
+			walk = func(n *idr.Node) {
+				pos[n] = len(pos)
+				for c := n.FirstChild; c != nil; c = c.NextSibling {
+					walk(c)
+				}
+			}
+			walk(root)
+			seen := map[*idr.Node]bool{}
+			var uniq []*idr.Node
+			for _, n := range cands {
+				if !seen[n] {
+					seen[n] = true
+					uniq = append(uniq, n)
+				}
+			}
+			sort.Slice(uniq, func(i, j int) bool { return pos[uniq[i]] < pos[uniq[j]] })
+			cands = uniq
+		}
+		c04Whole.cands[xp.candPath()] = cands
 	}
 	var err error
 	full, err := idr.MatchAll(root, xp.String())
@@ -217,7 +253,7 @@ func c04Check1(cs c04Case, xp c04XPath, release bool) (sig, detail string) {
 	if same {
 		// nothing delivered or rejected may stay behind
 		if root := unexportedNode(sr, "root"); root != nil {
-			left, _ := idr.MatchAll(root, xp.Path)
+			left, _ := idr.MatchAll(root, xp.candPath())
 			for _, n := range left {
 				if n.Type == idr.ElementNode && n != root {
 					return cs.Kind + ":candidate-left-in-tree-after-eof", fmt.Sprintf("doc %s xpath %s: %s still attached", cs.Doc, xp, serNode(n))
@@ -409,6 +445,21 @@ func c04SplitXPaths(kind string) (base, ext []c04XPath) {
 			ext = append(ext, x)
 		}
 	}
+	// unions of two branches that both select nodes (each with or without a filter): a candidate can be
+	// selected by the later branch and contain a node the earlier branch selects, and the other way round
+	var branches []c04XPath
+	for i, x := range all {
+		if i%per < 3 && i/per < 4 {
+			branches = append(branches, x)
+		}
+	}
+	for _, x1 := range branches {
+		for _, x2 := range branches {
+			if x1.Path != x2.Path && (x1.Pred != "" || x2.Pred != "") {
+				ext = append(ext, c04XPath{Path: x1.Path, Pred: x1.Pred, Wrap: "union-real", Path2: x2.Path, Pred2: x2.Pred})
+			}
+		}
+	}
 	return
 }
 
@@ -559,7 +610,8 @@ func init() {
 			if err := json.Unmarshal(raw, &cs); err != nil {
 				return "harness:bad-replay", err.Error()
 			}
-			for _, xp := range c04XPaths(cs.Kind) {
+			b0, e0 := c04SplitXPaths(cs.Kind)
+			for _, xp := range append(append(c04XPaths(cs.Kind), b0...), e0...) {
 				if xp.String() == cs.XPath {
 					sig, detail := c04Check(cs, xp)
 					if sig == "" {
